@@ -175,6 +175,23 @@ def run(ctx):
                     reqs.append(dict(op="astar", adj=[[[q, e] for q, e in row] for row in adj], h=H,
                                      queries=[dict(start=a, goal=b, early=early, maxits=int(l.n_edges)) for a, b, early, _, _ in queries]))
                     meta.append((f"{name}:{kind}:{mname}", queries))
+    # ---- 'always found when the budget is at least the number of edges': the pairs that need the most iterations (square tilings; counted with koala's own
+    #      forward pass), both metrics, both early-stopping settings, plaquettes and vertices
+    from props.c06 import hungry_pairs
+    for s in ([(10, 10)] if quick else [(9, 9), (10, 10), (12, 12)]):
+        l = zoo.rebuild(eg.square_lattice(*s))
+        for its, a, b in hungry_pairs(l, 6 if quick else 30):
+            for mname, metric in (("euclid", pf.straight_line_length), ("periodic", pf.periodic_straight_line_length)):
+                for early in (True, False):
+                    tag = f"square{s}:plaquette:{mname}:{a}->{b}:{'early' if early else 'full'}:budget"
+                    try:
+                        nodes, edges = pf.path_between_plaquettes(l, a, b, heuristic=metric, early_stopping=early, maxits=l.n_edges)
+                        if int(nodes[0]) != b or int(nodes[-1]) != a or len(edges) != len(nodes) - 1:
+                            raise ValueError("not a chain from start to goal")
+                    except Exception as ex:
+                        ctx.impl_violation(f"{tag}: {type(ex).__name__}: {ex} with maxits = n_edges = {l.n_edges} (the A* forward pass needs {its} iterations for this pair)",
+                                           dict(case=tag, generator=f"square_lattice{s}", kind="plaquette", metric=mname, start=int(a), goal=int(b), early=early))
+                    ctx.case((tag,), nontrivial=True)
     # ---- metrics on dyadic point pairs
     G = 2 ** 10
     pts = rng.integers(0, G, size=(60 if quick else 600, 2, 2))
